@@ -55,8 +55,9 @@ def _env():
     return _ENV
 
 
-def _tag(c, second=False, vfile=False):
-    return ('build_%d_master_success' if vfile else 'build_%d_release_1_0_success') % (100 + 2 * c + (1 if second else 0))
+def _tag(c, second=False, vfile=False, zero=False):
+    return ('build_%d_master_success' if vfile else ('build_%d_release_0_9_success' if zero else 'build_%d_release_1_0_success')) % (
+        100 + 2 * c + (1 if second else 0))
 
 
 def observe(case):
@@ -65,7 +66,10 @@ def observe(case):
     # vfile: the component's version 1.<minor> is kept in its VERSION file and changes from commit to commit
     vfile = case.get('vfile') == 1
     saved = case.get('vfile') == 2        # builds = bumps of the saved number: 1.0.<100 + 2c> at a build commit c,
-    minor = (lambda c: c) if vfile else (lambda c: 0)     # the newest number of the parents otherwise
+    # zero: the component's release line is 0.9 (tags build_<n>_release_0_9_success, pins 0.9.<n>): a major version 0
+    zero = bool(case.get('zero')) and not vfile and not saved
+    cmaj = 0 if zero else 1
+    minor = (lambda c: c) if vfile else ((lambda c: 9) if zero else (lambda c: 0))     # the newest number of the parents otherwise
     if saved:
         num = {}
         for c in range(1, ck + 1):
@@ -73,8 +77,8 @@ def observe(case):
     lib_commits = {c: (sorted(case['cparents'][c - 1], reverse=(c % 2 == 0)), ('BUG-7 lib %d' % c) if case['cmatch'][c - 1] else 'lib other %d' % c,
                        {'VERSION': '1.%d\n' % minor(c)} if vfile else ({'VERSION': '1.0.%d\n' % num[c]} if saved else {}))
                    for c in range(1, ck + 1)}
-    lib_tags = {_tag(c, False, vfile): c for c in range(1, ck + 1) if case['ctagged'][c - 1] >= 1}
-    lib_tags.update({_tag(c, True, vfile): c for c in range(1, ck + 1) if case['ctagged'][c - 1] == 2})
+    lib_tags = {_tag(c, False, vfile, zero): c for c in range(1, ck + 1) if case['ctagged'][c - 1] >= 1}
+    lib_tags.update({_tag(c, True, vfile, zero): c for c in range(1, ck + 1) if case['ctagged'][c - 1] == 2})
     if saved:
         lib_tags = {}
     lib = ghmock.Repo('lib', lib_commits, lib_tags, {'master': ck}, time_step=600)
@@ -83,11 +87,11 @@ def observe(case):
     # occurs for the first component (a pin that never moves)
     two = bool(case.get('two')) and not vfile and not saved
     top = max(range(h['n']), key=lambda k: (case['pin'][k], case['pin2'][k]))
-    pin_lib2 = '1.0.%d' % (100 + 2 * case['pin'][top] + (1 if case['pin2'][top] else 0))
+    pin_lib2 = '%d.%d.%d' % (cmaj, 9 if zero else 0, 100 + 2 * case['pin'][top] + (1 if case['pin2'][top] else 0))
     app_commits, app_tags = {}, {}
     for c in range(1, h['n'] + 1):
         ps = sorted(h['parents'][c - 1], reverse=(c % 2 == 1))
-        files = {'DEPENDS': json.dumps({'lib': '1.%d.%d' % (minor(case['pin'][c - 1]), 100 + 2 * case['pin'][c - 1] + (1 if case['pin2'][c - 1] else 0))})}
+        files = {'DEPENDS': json.dumps({'lib': '%d.%d.%d' % (cmaj, minor(case['pin'][c - 1]), 100 + 2 * case['pin'][c - 1] + (1 if case['pin2'][c - 1] else 0))})}
         if two:
             d = json.loads(files['DEPENDS'])
             d['lib2'] = pin_lib2
@@ -152,7 +156,7 @@ def observe(case):
     for cb in sorted(real_incl):
         if real_incl[cb] != want[cb]:
             return ('component build %d (tag %s) is recorded as included at %s, the first parent builds that ship it are %s'
-                    % (cb, _tag(cb, False, vfile), sorted(real_incl[cb]), sorted(want[cb])))
+                    % (cb, _tag(cb, False, vfile, zero), sorted(real_incl[cb]), sorted(want[cb])))
         for b, B in want[cb]:
             if B not in reported.get(b, set()):
                 return 'parent build %d of branch %s ships component build %d but is not reported' % (B, b, cb)
@@ -221,7 +225,7 @@ def run(ctx):
                         'do not lie inside a lower-sorted branch (known finding F-C06 of C06 lives there); pins never decrease '
                         'along a path (the new pin contains the old one) and name existing component builds; all commit times within a few hours (inside the '
                         'cut-off windows)',
-                        'component versions: 1.0.<build> from tags build_<n>_release_1_0_success, or 1.<commit>.<build> from tags build_<n>_master_success plus a VERSION file that changes with every commit']
+                        'component versions: 1.0.<build> from tags build_<n>_release_1_0_success (or 0.9.<build> from build_<n>_release_0_9_success), or 1.<commit>.<build> from tags build_<n>_master_success plus a VERSION file that changes with every commit']
     ctx.tlc('ghist/GHistComp.tla', _cfg(2, 2, 2, 2, False) if ctx.quick else _cfg(2, 3, 2, 2, False), workers=16, timeout=3000)
     r = ctx.tlc('ghist/GHistComp.tla', _cfg(2, 2, 2, 2, True, invs=False) if ctx.quick else _cfg(2, 3, 2, 2, True, invs=False),
                 workers=16, timeout=7200, heap='16g')
@@ -255,6 +259,7 @@ def run(ctx):
     for i, c in enumerate(cases):
         c['supply'] = i % 2
         c['two'] = (i // 8) % 2           # the parent pins a second component as well
+        c['zero'] = (i // 16) % 2         # the component's release line is 0.9 instead of 1.0 (tag-only components)
         c['vfile'] = (i // 2) % 2         # how the component's builds get their major.minor: tag text / VERSION file
         # third way: no tags, a build is a bump of the saved number (needs: one build per commit, roots are builds,
         # a head that is a plain merge is excluded: it would be an unbuilt head that carries the number of a build which
